@@ -39,8 +39,8 @@
       offsets are rewritten by the displacement of the media data, every sample offset moves by
       exactly that displacement and the same samples are read.
     [ex12_two_files] is a complete pair of files (replayed on the Rust code: same result).
-    What is not proved here is listed at [C12_statement] at the end; what is FALSE is in the
-    section "Limits" ([*_refuted]). *)
+    The end-to-end theorem over box trees is in [Props/C12Tree.v] (the vocabulary [btree], [lstep], [C12_statement] is defined at the end of this
+    file); what is FALSE is in the section "Limits" ([*_refuted]). *)
 From MP4 Require Import LayoutKit LayoutTailFixed LayoutTailTbl LayoutProofs LayoutMore LayoutOpen LayoutShift Reader.
 From MP4 Require Track.
 From MP4 Require Import RtFtyp IsoFtyp.
@@ -882,19 +882,14 @@ Proof. vm_compute. split; reflexivity. Qed.
 
 (** ** The full statement
 
-    [C12_statement] is the property as one proposition, for non-fragmented files.  It is NOT
-    proved as one theorem.  Proved above: every mechanism it rests on, for every loop of the
-    parser; the fold theorems of the reader loop and of moov, trak, mdia, minf, stbl, dinf, udta,
-    mvex (and moof, traf); that leaves / skipped boxes / nested containers are children of those
-    folds in either header form and with spare bytes; the equivariance of the lookups under a
-    displacement of the media data.  Missing: the induction over arbitrary box trees that glues
-    the per-container theorems together — it needs, for every child type, that a child which
-    decodes at all decodes to the same value after a layout step, which the development has only
-    for CANONICAL payloads ([iso_xxx_payload v ++ spare], from the round-trip theorems) and not
-    at all for stsd, edts, meta / ilst (no round-trip theorem exists for them; the sample entries
-    avc1 / hev1 / vp09 / mp4a / tx3g inside stsd do not iterate, see "Limits") — and fragmented
-    files (moof offsets, trun data offsets and tfhd base offsets move with the layout; only
-    [moof_offsets_are_positions] and the moof / traf fold theorems are proved). *)
+    [C12_statement] below was the first attempt to write the property as one proposition over box trees, for non-fragmented files.
+    It is FALSE as written ([Props/C12Tree.v], [C12_first_statement_is_false]): it quantifies over ANY well-formed trees and takes the SYMMETRIC
+    closure of the layout steps, and "append spare bytes", read backwards, truncates a box.  The corrected theorem — the same conclusion, for trees that
+    have a structural decoding (which includes every ISO rendering of well-formed values) — is proved in [Proofs/LayoutTree*.v] and restated in
+    [Props/C12Tree.v]: [C12_tree_canonical] (any chain of steps through canonical lists) and [C12_tree_forward] (only the start is assumed canonical).
+    The definitions below are kept because those theorems are stated with them.  Fragmented files (moof offsets, trun data offsets and tfhd base offsets
+    move with the layout) remain outside the tree theorem: [moof_offsets_are_positions] and the moof / traf fold theorems are what is proved there; the
+    metamorphic check covers them on the real reader. *)
 
 (** a box tree: a leaf is any box taken as a whole; a node is a box whose payload is the
     rendering of its children *)
